@@ -6,6 +6,9 @@ ALL = ["C%02d" % i for i in range(1, 21)]
 
 # id -> (category, technique, level text, level note, design ref, engine)
 CHECKS = {
+ "C01": ("model_checking", "exhaustive lattice of closed-form problems (warps, mixings, directions, scales) x tolerance ladder x tolerance mode x t_eval on the real solve_ivp, against closed forms and an independent reference integrator",
+         "Every ladder (method, problem variant, direction, initial-state scale, tolerance mode, t_eval) is run at rtol 1e-3..1e-11; every component of every returned sample is compared with the closed-form solution against K*kappa*naccpt*(atol+rtol*|y|) with the conditioning kappa computed from the closed-form flow; along each ladder tightening never increases the error more than 5x; RK4's global order is measured on a step ladder; thorough adds dissipative polynomial fields against an extrapolated fixed-step reference sharing no code with ivp.",
+         "K=50; |y| read as max norm for coupled systems; kappa>20 skipped and counted; rounding floor 64 eps scale sqrt(nfev); 'all smooth problems' is represented by the stated finite lattice only", "DESIGN.md §3 C01", "E1"),
  "C02": ("model_checking", "tableau extraction from the running code by impulse probing (unit-vector environment answers at every stage call) + order conditions over ALL rooted trees up to p; model bound to code by predicting real nonlinear steps",
          "The coefficients (A,b,c) the solvers really apply are read off the arguments of successive RHS calls; the order condition of every rooted tree of order <= p (8/4/17/200/17 conditions) is evaluated on them, Radau's stability function is compared with the (2,3) Pade approximant and with real one-step runs, the real estimator is exercised on every tree of order <= q+1, and the extracted model must predict real steps on 6 nonlinear problems (trace validation); local-error ladders and the step-count law tol^(-1/q) corroborate end to end.",
          "tolerance 1e-12*scale on residuals (a coefficient perturbed below that is not an order violation); 'all smooth right-hand sides' is covered through the complete finite set of rooted trees, the asymptotic statements through the stated finite ladders", "DESIGN.md §3 C02", "E2"),
